@@ -1262,7 +1262,7 @@ class Translator:
         except Unsupported as u:
             self.functions[name] = None
             self.results[name] = {"ok": False, "error": str(u), "assumptions": []}
-            self.out.append("(* def %s: NOT TRANSLATED: %s *)\n" % (name, str(u).replace("*)", "* )")))
+            self.out.append("(* def %s: NOT TRANSLATED: %s *)\n" % (name, u.what.replace("*)", "* )")))
 
     def do_class(self, name):
         try:
@@ -1290,7 +1290,7 @@ class Translator:
             self.results[name] = {"ok": True, "error": "", "assumptions": sorted(set(env.assumptions)), "coq": name + "_eval"}
         except Unsupported as u:
             self.results[name] = {"ok": False, "error": str(u), "assumptions": []}
-            self.out.append("(* class %s: NOT TRANSLATED: %s *)\n" % (name, str(u).replace("*)", "* )")))
+            self.out.append("(* class %s: NOT TRANSLATED: %s *)\n" % (name, u.what.replace("*)", "* )")))
 
     def run(self, classes=None, functions=None):
         self.out = ["(* GENERATED by harness/translate/py2coq.py from platypus/problems.py — do not edit.\n"
